@@ -356,6 +356,7 @@ const prelude = `(set-option :produce-models true)
 (assert (forall ((a Int) (b Int)) (! (=> (and (< a b) (<= (- 9007199254740992) a) (<= b 9007199254740992)) (fp.lt (i2f_ a) (i2f_ b))) :pattern ((i2f_ a) (i2f_ b)))))
 (assert (forall ((f F64)) (! (=> (and (fp.leq ((_ to_fp 11 53) RNE 0.0) f) (fp.lt f ((_ to_fp 11 53) RNE 9223372036854775808.0))) (and (<= 0 (f2i_ f)) (fp.leq (i2f_ (f2i_ f)) f))) :pattern ((f2i_ f)))))
 (assert (fp.eq (i2f_ 0) ((_ to_fp 11 53) RNE 0.0)))
+(assert (forall ((f F64)) (! (=> (and (fp.leq ((_ to_fp 11 53) RNE 1.0) f) (fp.lt f ((_ to_fp 11 53) RNE 9223372036854775808.0))) (<= 1 (f2i_ f))) :pattern ((f2i_ f)))))
 (declare-fun imul_ (Int Int) Int)
 (assert (forall ((a Int) (b Int)) (! (= (imul_ a b) (imul_ b a)) :pattern ((imul_ a b)))))
 (assert (forall ((a Int)) (! (= (imul_ a 0) 0) :pattern ((imul_ a 0)))))
